@@ -32,7 +32,7 @@ def selective(pattern, folders, opts, recursive, as_set, unroll=1, extras=False)
     absent = slash = extras  # an absent name in T and trailing slashes on every target: shard parameter
 
     def harness(e):
-        entries, layout = RC.build(e, pattern, folders, opts, sym)
+        entries, layout = RC.build(e, pattern, folders, opts, sym, names=opts.get("names"))
         try:
             z, fp, w = X.setup_read(e, entries, layout, consume="all-at-once")
         except ModelRaise as ex:
@@ -74,7 +74,7 @@ def selective(pattern, folders, opts, recursive, as_set, unroll=1, extras=False)
     r.note = (r.note + " cut_paths=%d" % eng.cut_paths).strip()
 
     def rp(w_):
-        names = RC.NAMES
+        names = opts.get("names") or RC.NAMES
         t = [names[i] + ("/" if slash else "") for i in range(n) if w_.get("sel%d" % i)]
         if absent:
             t.append("no/such/member")
@@ -222,7 +222,7 @@ def replay(pattern, folders, opts, targets, recursive, as_set, witness):
     import py7zr
     from py7zr.io import BytesIOFactory
 
-    img, entries, datas = c06.concrete_case(pattern, folders, opts, witness)
+    img, entries, datas = c06.concrete_case(pattern, folders, opts, witness, names=opts.get("names"))
     try:
         full = BytesIOFactory(10 ** 6)
         py7zr.SevenZipFile(io.BytesIO(img)).extractall(factory=full)
@@ -262,6 +262,9 @@ def units(tier):
     else:
         shapes += [("fdff", [2, 1], {})]
     shapes += [("fdf", [1, 0, 1], {})]   # a folder without members between two others
+    shapes += [("flf", [3], {})]   # a symbolic-link member in the middle of a solid block (unselected: decoded and discarded)
+    # a directory whose name is a string prefix of its siblings' names: "beneath a named directory" is not "starts with its name"
+    shapes += [("dfff", [3], {"names": ["dir", "dir2.bin", "dir/b.bin", "dirfile"]})]
     us = []
     for (p, f, o) in shapes:
         for rec in (False, True):
